@@ -84,6 +84,15 @@ Proof.
   { clear - Hp. induction r as [|a r IH]; cbn [map fold_right]; [lia|]. specialize (Hp a). lia. }
   pose proof (Hp y). destruct Hin as [<-|Hin]; [lia|]. apply IH; [lia|assumption].
 Qed.
+Lemma zsum_nonneg {A} (f : A -> Z) (l : list A) : (forall x, 0 <= f x) -> 0 <= zsum (map f l).
+Proof. intros Hp. unfold zsum. induction l as [|a r IH]; cbn [map fold_right]; [lia|]. specialize (Hp a). lia. Qed.
+Lemma zsum_ge_nth {A} (f : A -> Z) (l : list A) : (forall x, 0 <= f x) ->
+  forall n t, nth_error l n = Some t -> f t <= zsum (map f l).
+Proof.
+  intros Hp. induction l as [|a r IH]; intros [|n] t H; cbn [nth_error] in H; try discriminate.
+  - inversion H; subst. pose proof (zsum_nonneg f r Hp). unfold zsum in *. cbn [map fold_right]. lia.
+  - specialize (IH _ _ H). pose proof (Hp a). unfold zsum in *. cbn [map fold_right]. lia.
+Qed.
 Lemma zsum_all_zero {A} (f : A -> Z) (l : list A) : (forall x, In x l -> f x = 0) -> zsum (map f l) = 0.
 Proof.
   unfold zsum. induction l as [|y r IH]; cbn [map fold_right]; intros H; [reflexivity|].
@@ -446,6 +455,12 @@ Proof. apply map_app. Qed.
 Lemma cA_nonneg b x : 0 <= cA b x.
 Proof. destruct x as [[o []]|]; cbn [cA]; try lia; destruct (Bool.eqb _ _); lia. Qed.
 
+Lemma TA_mem b (T : list (thread HM)) i t o pc inv : nth_error T i = Some t -> t_cur t = Some (o, pc, inv) -> cA b (Some (o, pc)) <= TA b T.
+Proof.
+  intros Ht Hc. assert (Hp : tpc t = Some (o, pc)) by (unfold tpc; rewrite Hc; reflexivity). rewrite <- Hp.
+  apply (zsum_ge_nth (fun t => cA b (tpc t))) with i; [intros; apply cA_nonneg|exact Ht].
+Qed.
+
 Lemma TA_zero b T : TA b T = 0 -> (forall j, TB b j T = 0) /\ TS b T = [].
 Proof.
   intros H.
@@ -572,11 +587,11 @@ Proof.
 Qed.
 
 (* thread i holds the lock before and after the step *)
-Lemma InvT_hold hb mx g g' T time i t o pc inv o' pc' inv' todo idx :
+Lemma InvT_hold hb hb' mx g g' T time i t o pc inv o' pc' inv' todo idx :
   InvT hb mx g T time -> nth_error T i = Some t -> t_cur t = Some (o, pc, inv) -> holds pc = true ->
   gown g' = gown g -> holds pc' = true ->
-  pcinv hb g' i o' pc' inv' -> inv' <= time ->
-  InvT hb mx g' (set_nth T i (mkThread HM todo (Some (o', pc', inv')) idx)) (time + 1).
+  pcinv hb' g' i o' pc' inv' -> inv' <= time ->
+  InvT hb' mx g' (set_nth T i (mkThread HM todo (Some (o', pc', inv')) idx)) (time + 1).
 Proof.
   intros [Hthr Hown] Ht Hc Hh E1 Hh' Hnew Hinv.
   pose proof (Hthr i t Ht) as Hi. unfold tinv in Hi. rewrite Hc in Hi. destruct Hi as [Hi _].
@@ -629,8 +644,13 @@ Qed.
 (* ====================================================================== *)
 Definition set_ph (g : ghost) (ph : phase) : ghost := mkG (gD0 g) (gD1 g) (gW g) (gown g) (ginv g) ph.
 
+Definition add_D (g : ghost) (b : bool) (k : hcall) : ghost :=
+  mkG (if b then gD0 g else gD0 g ++ [k]) (if b then gD1 g ++ [k] else gD1 g) (gW g) (gown g) (ginv g) (gph g).
 Lemma gD_set_ph g ph b : gD (set_ph g ph) b = gD g b.
 Proof. reflexivity. Qed.
+
+Lemma hot_hput h b s : hot (hput h b s) = hot h. Proof. destruct b; reflexivity. Qed.
+Lemma mtx_hput h b s : mtx (hput h b s) = mtx h. Proof. destruct b; reflexivity. Qed.
 
 Lemma holds_contrib o pc : holds pc = true ->
   (forall b, cA b (Some (o, pc)) = 0) /\ (forall b j, cB b j (Some (o, pc)) = 0) /\ (forall b, cS b (Some (o, pc)) = []).
@@ -679,6 +699,33 @@ Proof.
   - apply InvH_time with nw; [lia|assumption].
 Qed.
 
+Lemma T_step T i t o pc inv x : nth_error T i = Some t -> t_cur t = Some (o, pc, inv) ->
+  forall t', tpc t' = x ->
+  (forall b, TA b (set_nth T i t') = TA b T - cA b (Some (o, pc)) + cA b x) /\
+  (forall b j, TB b j (set_nth T i t') = TB b j T - cB b j (Some (o, pc)) + cB b j x) /\
+  (forall b, Permutation (cS b (Some (o, pc)) ++ TS b (set_nth T i t')) (cS b x ++ TS b T)).
+Proof.
+  intros Ht Hc t' Hx. assert (Hp : tpc t = Some (o, pc)) by (unfold tpc; rewrite Hc; reflexivity).
+  rewrite <- Hp, <- Hx. repeat split; intros; [apply TA_set|apply TB_set|apply TS_set]; assumption.
+Qed.
+
+(* an observer step that keeps the ghost state *)
+Lemma step_obs h h' T nw hs g i t o pc pc' inv :
+  Inv3 h T nw hs g -> nth_error T i = Some t -> t_cur t = Some (o, pc, inv) ->
+  holds pc = false -> hot h' = hot h -> mtx h' = mtx h ->
+  pcinv (hot h) g i o pc' inv ->
+  InvS h' g (set_nth T i (mkThread HM (t_todo t) (Some (o, pc', inv)) (t_idx t))) ->
+  Inv3 h' (set_nth T i (mkThread HM (t_todo t) (Some (o, pc', inv)) (t_idx t))) (nw + 1) hs g.
+Proof.
+  intros (HT & HS & HH) Ht Hc Hh Ehot Emtx Hpc HS'.
+  pose proof (i_thr _ _ _ _ _ HT i t Ht) as Hi. unfold tinv in Hi. rewrite Hc in Hi. destruct Hi as [_ Hinv].
+  unfold Inv3. rewrite Ehot, Emtx. split; [|split]; [|assumption|].
+  - eapply InvT_obs; eauto.
+    + intros o1 pc1 inv1 H1. rewrite Hc in H1. inversion H1; subst. assumption.
+    + unfold tinv. cbn [t_cur]. split; [assumption|lia].
+  - apply InvH_time with nw; [lia|assumption].
+Qed.
+
 Lemma cooled_facts h g T : InvS h g T -> cooled (gph g) = true ->
   TA (negb (hot h)) T = 0 /\ (forall j, TB (negb (hot h)) j T = 0) /\ TS (negb (hot h)) T = [].
 Proof.
@@ -686,7 +733,102 @@ Proof.
 Qed.
 
 Ltac psplit := repeat match goal with |- _ /\ _ => split end.
+Ltac hold_step Hph :=
+  eapply step_hold; eauto;
+  try solve [reflexivity | apply hot_hput | apply mtx_hput | cbn [set_ph gph]; rewrite Hph; reflexivity].
+Ltac simS := cbn [add_D negb hget hput hot tickets set0 set1 mtx h_bnds s_sum s_cnt s_bk s_zero gD set_ph gD0 gD1 gph gW gown ginv
+                    pmc pzc pms pzs pmb pzb PhM0 cooled flipped].
+Ltac simSall := cbn [add_D negb hget hput hot tickets set0 set1 mtx h_bnds s_sum s_cnt s_bk s_zero gD set_ph gD0 gD1 gph gW gown ginv
+                    pmc pzc pms pzs pmb pzb PhM0 cooled flipped] in *.
+Ltac prepS HS Hph h :=
+  destruct HS as [B1 TK CH CC BH BC SH SC ZR FR CD CL];
+  pose proof (ZR true) as [ZR1 ZL1]; pose proof (ZR false) as [ZR0 ZL0]; clear ZR;
+  rewrite Hph in *; destruct h as [bn hb tk s0 s1 mx]; cbn [hot] in *.
+Ltac prepSc HS Hph h :=
+  destruct (cooled_facts _ _ _ HS) as (A0 & B0 & S0); [rewrite Hph; reflexivity|]; prepS HS Hph h.
+Ltac triv :=
+  try assumption; try lia; try (intros; discriminate); try (intros [|]; simS; rewrite ?upd_nth_length; split; first [lia | assumption]; fail); try (intros; auto; fail).
+Ltac bcases :=
+  repeat match goal with
+  | |- context [Nat.ltb ?a ?b] => destruct (Nat.ltb_spec a b)
+  | |- context [Nat.eqb ?a ?b] => destruct (Nat.eqb_spec a b)
+  | H : context [Nat.ltb ?a ?b] |- _ => destruct (Nat.ltb_spec a b)
+  | H : context [Nat.eqb ?a ?b] |- _ => destruct (Nat.eqb_spec a b)
+  end; cbn [andb orb] in *; subst; try lia.
+Ltac bk BH := let j := fresh "j" in let Hj := fresh "Hj" in
+  intros j Hj; rewrite ?nthZ_upd_nth; specialize (BH j Hj); try match goal with Hz : forall j : nat, TB _ j _ = 0 |- _ => rewrite ?Hz in * end; bcases.
+Ltac prepO HS h ES :=
+  destruct HS as [B1 TK CH CC BH BC SH SC ZR FR CD CL];
+  pose proof (ZR true) as [ZR1 ZL1]; pose proof (ZR false) as [ZR0 ZL0]; clear ZR;
+  pose proof (ES true) as ES1; pose proof (ES false) as ES0;
+  destruct h as [bn hb tk s0 s1 mx]; cbn [hot] in *.
+Ltac bko BH BC EB := let j := fresh "j" in let Hj := fresh "Hj" in
+  intros j Hj; rewrite ?nthZ_upd_nth, ?EB; cbn [cB Bool.eqb andb val]; unfold bix in *;
+  specialize (BH j Hj); specialize (BC j Hj); bcases.
 Ltac hold_same g := exists g; eapply step_hold; eauto; try reflexivity.
+
+(* ---- completion of an Observe: the call record joins the ghost list of its set ---- *)
+Lemma gD_add_same g b k : gD (add_D g b k) b = gD g b ++ [k].
+Proof. destruct b; reflexivity. Qed.
+Lemma gD_add_other g b k : gD (add_D g b k) (negb b) = gD g (negb b).
+Proof. destruct b; reflexivity. Qed.
+Lemma base_add_incl g b k hb : incl (base g hb) (base (add_D g b k) hb).
+Proof.
+  unfold base. change (gph (add_D g b k)) with (gph g).
+  destruct (flipped (gph g)), hb, b; cbn [negb gD add_D gD0 gD1]; first [apply incl_refl|apply incl_appl, incl_refl].
+Qed.
+
+Lemma wr_ok_snoc hs bs bs' e k :
+  wr_ok hs bs e -> c_inv (fst e) < c_res k -> incl bs bs' -> wr_ok (hs ++ [k]) bs' e.
+Proof.
+  destruct e as [w S]. cbn [fst wr_ok]. intros (o & Hr & Ho & H1 & H2 & H3) Hlt Hincl.
+  exists o. psplit; auto.
+  - intros k' Hk' Hob Hle. apply in_app_or in Hk'. destruct Hk' as [Hk'|[<-|[]]]; [auto|lia].
+  - intros k' Hk'. destruct (H2 k' Hk') as (A & B & C). psplit; auto. apply in_or_app. auto.
+  - eapply incl_tran; eauto.
+Qed.
+
+Lemma gW_in_hist hs time g hb e : InvH hs time g hb -> In e (gW g) -> In (fst e) hs.
+Proof.
+  intros HH He. pose proof (in_map fst _ _ He) as H. rewrite (i_wr _ _ _ _ HH) in H.
+  apply filter_In in H. tauto.
+Qed.
+
+Lemma InvH_obs hs nw g hb b k :
+  InvH hs nw g hb -> kobs k = true -> c_ret k = HUnit -> c_inv k <= c_res k -> c_res k = nw + 1 ->
+  (gown g <> None -> ginv g <= nw) ->
+  InvH (hs ++ [k]) (nw + 1) (add_D g b k) hb.
+Proof.
+  intros HH Hob Hret Hik Hres Hgi. pose proof HH as [TM TOT WR WOK MONO RT]. constructor.
+  - intros k' Hk'. apply in_app_or in Hk'. destruct Hk' as [Hk'|[<-|[]]].
+    + destruct (TM k' Hk') as [H1 H2]. split; [lia|assumption].
+    + split; [lia|auto].
+  - rewrite filter_app. cbn [filter]. rewrite Hob. rewrite TOT.
+    destruct b; cbn [add_D gD0 gD1]; perm.
+  - rewrite filter_app. cbn [filter]. rewrite Hob. cbn [negb]. rewrite app_nil_r. exact WR.
+  - change (gW (add_D g b k)) with (gW g). rewrite Forall_forall in *. intros e He.
+    apply wr_ok_snoc with (base g hb); [auto| |apply base_add_incl].
+    pose proof (gW_in_hist _ _ _ _ _ HH He) as Hin. destruct (TM _ Hin) as [H1 _]. lia.
+  - exact MONO.
+  - change (gown (add_D g b k)) with (gown g). change (ginv (add_D g b k)) with (ginv g).
+    intros Ho k' Hk' Hob' Hle. apply in_app_or in Hk'. destruct Hk' as [Hk'|[<-|[]]].
+    + apply base_add_incl. auto.
+    + specialize (Hgi Ho). lia.
+Qed.
+
+Lemma tinv_none hb g hb' g' time j t : gown g = None -> tinv hb g time j t -> tinv hb' g' time j t.
+Proof.
+  unfold tinv. destruct (t_cur t) as [[[o pc] inv]|]; [|auto]. intros Ho [H1 H2]. split; [|assumption].
+  destruct (holds pc) eqn:E; [|eapply pcinv_nohold; eauto].
+  destruct (pcinv_holds _ _ _ _ _ _ H1 E) as (_ & H & _). congruence.
+Qed.
+
+Lemma ginv_le hb mx g T nw : InvT hb mx g T nw -> gown g <> None -> ginv g <= nw.
+Proof.
+  intros [Hthr Hown] Hne. destruct (gown g) as [j|]; [|congruence].
+  destruct Hown as (_ & t & o & pc & inv & Hj & Hc & Hh). specialize (Hthr j t Hj). unfold tinv in Hthr.
+  rewrite Hc in Hthr. destruct Hthr as [Hp Hi]. destruct (pcinv_holds _ _ _ _ _ _ Hp Hh) as (_ & _ & E). lia.
+Qed.
 
 Lemma Inv_step c g tid c' : Inv c g -> sched_step HM c tid = Some c' -> exists g', Inv c' g'.
 Proof.
@@ -699,27 +841,174 @@ Proof.
   pose proof (i_thr _ _ _ _ _ HT i t Ht) as Hi. unfold tinv in Hi. rewrite Hc in Hi. destruct Hi as [Hpc Hinv].
   destruct pc; cbn [hstep] in Hs.
   - (* oTicket *)
-    admit.
+    cbn [pcinv] in Hpc. subst o. rewrite (i_bnds _ _ _ HS) in Hs.
+    exists g.
+    destruct (Z.ltb_spec (find_bucket bnds v) (Z.of_nat n)) as [Hk|Hk];
+      inversion Hs; subst h' nxt; clear Hs; destruct Hrest as [-> ->].
+    + destruct (T_step T i t _ _ _ (Some (HObserve v, oBucket v (hot h) (find_bucket bnds v))) Ht Hc
+                (mkThread HM (t_todo t) (Some (HObserve v, oBucket v (hot h) (find_bucket bnds v), inv)) (t_idx t)) eq_refl) as (EA & EB & ES).
+      eapply step_obs; eauto; try solve [reflexivity | cbn [pcinv]; auto].
+      set (T' := set_nth T i _) in *. clearbody T'.
+      prepO HS h ES.
+      destruct hb; simSall; cbn [cS Bool.eqb app val] in ES1, ES0;
+        constructor; simS; rewrite ?EA, ?EB; cbn [cA cB cS Bool.eqb andb val]; triv;
+        try (bko BH BC EB; fail); try (destruct (pzs (gph g))); rewrite ?ES1, ?ES0; triv.
+    + destruct (T_step T i t _ _ _ (Some (HObserve v, oSumLoad v (hot h))) Ht Hc
+                (mkThread HM (t_todo t) (Some (HObserve v, oSumLoad v (hot h), inv)) (t_idx t)) eq_refl) as (EA & EB & ES).
+      eapply step_obs; eauto; try solve [reflexivity | cbn [pcinv]; auto].
+      set (T' := set_nth T i _) in *. clearbody T'.
+      prepO HS h ES.
+      destruct hb; simSall; cbn [cS Bool.eqb app val] in ES1, ES0;
+        constructor; simS; rewrite ?EA, ?EB; cbn [cA cB cS Bool.eqb andb val]; triv;
+        try (bko BH BC EB; fail); try (destruct (pzs (gph g))); rewrite ?ES1, ?ES0; triv.
   - (* oBucket *)
-    admit.
+    inversion Hs; subst h' nxt; clear Hs. destruct Hrest as [-> ->].
+    cbn [pcinv] in Hpc. destruct Hpc as (-> & -> & Hk).
+    exists g.
+    destruct (T_step T i t _ _ _ (Some (HObserve v, oSumLoad v b)) Ht Hc
+                (mkThread HM (t_todo t) (Some (HObserve v, oSumLoad v b, inv)) (t_idx t)) eq_refl) as (EA & EB & ES).
+    eapply step_obs; eauto; try solve [reflexivity | apply hot_hput | apply mtx_hput].
+    set (T' := set_nth T i _) in *. clearbody T'.
+    prepO HS h ES.
+    destruct hb, b; simSall; cbn [cS Bool.eqb app val] in ES1, ES0;
+      constructor; simS; rewrite ?EA, ?EB; cbn [cA cB cS Bool.eqb andb val]; triv;
+      try (bko BH BC EB; fail); try (destruct (pzs (gph g))); rewrite ?ES1, ?ES0; triv.
   - (* oSumLoad *)
     inversion Hs; subst; clear Hs. destruct Hrest as [-> ->]. exists g. eapply step_quiet; eauto.
   - (* oSumCas *)
-    admit.
+    cbn [pcinv] in Hpc. subst o.
+    destruct (fbits_eq _ _) eqn:Ecas; inversion Hs; subst h' nxt; clear Hs; destruct Hrest as [-> ->]; exists g.
+    + apply fbits_eq_true in Ecas. subst old.
+      destruct (T_step T i t _ _ _ (Some (HObserve v, oCount b)) Ht Hc
+                (mkThread HM (t_todo t) (Some (HObserve v, oCount b, inv)) (t_idx t)) eq_refl) as (EA & EB & ES).
+      pose proof (TA_mem b T i t _ _ _ Ht Hc) as HA1. cbn [cA] in HA1. rewrite Bool.eqb_reflx in HA1.
+      eapply step_obs; eauto; try solve [reflexivity | apply hot_hput | apply mtx_hput].
+      set (T' := set_nth T i _) in *. clearbody T'.
+      prepO HS h ES.
+      destruct hb, b; simSall; cbn [cS Bool.eqb app val] in ES1, ES0;
+        constructor; simS; rewrite ?EA, ?EB; cbn [cA cB cS Bool.eqb andb val]; triv;
+        try (bko BH BC EB; fail).
+      all: try (destruct (pzs (gph g)) eqn:Epz;
+                [try assumption; exfalso; destruct (gph g); try discriminate Epz; specialize (CD eq_refl); lia|]).
+      all: rewrite ?ES1, ?ES0; try assumption.
+      all: eapply SO_perm; [|apply SumOf_snoc; eassumption]; perm.
+    + eapply step_quiet; eauto. reflexivity.
   - (* oCount *)
-    admit.
+    inversion Hs; subst h' nxt; clear Hs. destruct Hrest as (t' & Hfr & -> & ->).
+    cbn [pcinv] in Hpc.
+    set (k := mkCall tid (t_idx t) o HUnit inv (nw + 1)).
+    exists (add_D g b k).
+    destruct (fresh_tpc _ _ Hfr) as (FA & FB & FS).
+    destruct (T_step T i t _ _ _ (tpc t') Ht Hc t' eq_refl) as (EA & EB & ES).
+    pose proof (TA_mem b T i t _ _ _ Ht Hc) as HA1. cbn [cA] in HA1. rewrite Bool.eqb_reflx in HA1.
+    assert (Hcold : b = negb (hot h) -> cooled (gph g) = false).
+    { intros ->. destruct (cooled (gph g)) eqn:E; [|reflexivity]. pose proof (i_cooled _ _ _ HS E). lia. }
+    assert (Hb : b = hot h \/ b = negb (hot h)) by (destruct b, (hot h); auto).
+    split; [|split].
+    + rewrite hot_hput, mtx_hput. eapply InvT_obs; eauto; try reflexivity.
+      * intros o1 pc1 inv1 H1. rewrite Hc in H1. inversion H1; subst. reflexivity.
+      * intros Hcd. destruct Hb as [->| ->]; [apply gD_add_other|]. rewrite Hcold in Hcd; [discriminate|reflexivity].
+      * apply fresh_tinv. assumption.
+    + set (T' := set_nth T i _) in *. clearbody T'.
+      prepO HS h ES. rewrite FS in ES1, ES0.
+      destruct hb, b; simSall; cbn [cS Bool.eqb app val] in ES1, ES0.
+      all: try (specialize (Hcold eq_refl); destruct (gph g) eqn:Eph; try discriminate Hcold; simSall).
+      all: constructor; simS; try rewrite !Eph; simS; rewrite ?EA, ?EB, ?FA, ?FB; cbn [cA cB Bool.eqb andb];
+        rewrite ?zlen_app, ?zlen_one, ?vals_app; cbn [vals map]; change (kval k) with (val o); triv.
+      all: try (let j := fresh "j" in let Hj := fresh "Hj" in
+                intros j Hj; rewrite ?EB, ?FB, ?cnteq_app, ?cnteq_one; cbn [cB Bool.eqb andb]; change (kval k) with (val o);
+                specialize (BH j Hj); specialize (BC j Hj); bcases; fail).
+      all: try (destruct (pzs (gph g)); [assumption|]).
+      all: try rewrite <- ES1 in SH; try rewrite <- ES0 in SH; try rewrite <- ES1 in SC; try rewrite <- ES0 in SC.
+      all: first [assumption | eapply SO_perm; [|first [exact SH|exact SC]]; perm].
+    + rewrite hot_hput. apply InvH_obs; auto; try reflexivity.
+      * unfold k. cbn [c_inv c_res]. lia.
+      * eapply ginv_le; eauto.
   - (* wLock *)
-    admit.
+    cbn [pcinv] in Hpc. subst o.
+    destruct (mtx h) eqn:Emtx; [discriminate Hs|]. inversion Hs; subst h' nxt; clear Hs. destruct Hrest as [-> ->].
+    pose proof (i_own _ _ _ _ _ HT) as Hown. destruct (gown g) as [j|] eqn:Eown; [destruct Hown; congruence|].
+    destruct Hown as [_ Hph].
+    exists (mkG (gD0 g) (gD1 g) (gW g) (Some i) inv Ph0).
+    unfold Inv3. cbn [hot mtx]. split; [|split].
+    + constructor.
+      * intros j tj Hj. apply nth_error_set_nth_inv in Hj. destruct Hj as [[-> ->]|[Hne Hj]].
+        -- unfold tinv. cbn [t_cur pcinv gown ginv gph]. psplit; auto. lia.
+        -- apply tinv_mono with nw; [lia|]. eapply tinv_none; [exact Eown|]. apply (i_thr _ _ _ _ _ HT). exact Hj.
+      * cbn [gown]. split; [reflexivity|]. eexists _, HWrite, wFlip, inv.
+        rewrite (nth_error_set_nth_eq _ _ _ _ Ht). cbn [t_cur holds]. auto.
+    + destruct (T_same T i t (mkThread HM (t_todo t) (Some (HWrite, wFlip, inv)) (t_idx t)) Ht) as (HA & HB & HS2);
+        try (intros; unfold tpc; rewrite Hc; reflexivity).
+      eapply InvS_T; eauto.
+      destruct HS as [B1 TK CH CC BH BC SH SC ZR FR CD CL]. rewrite Hph in *.
+      constructor; cbn [h_bnds hot tickets gD0 gD1 gph gD hget set0 set1] in *; auto.
+    + destruct HH as [TM TOT WR WOK MONO RT].
+      assert (Eb : base (mkG (gD0 g) (gD1 g) (gW g) (Some i) inv Ph0) (hot h) = base g (hot h))
+        by (apply base_eq; cbn [gD0 gD1 gph]; rewrite ?Hph; reflexivity).
+      constructor; rewrite ?Eb; cbn [gD0 gD1 gW gown ginv]; auto.
+      * intros k Hk. destruct (TM k Hk). split; [lia|assumption].
+      * intros _ k Hk Hob _. unfold base. rewrite Hph. cbn [flipped].
+        assert (Hin : In k (gD0 g ++ gD1 g)).
+        { eapply Permutation_in; [exact TOT|]. apply filter_In. auto. }
+        pose proof (i_free _ _ _ HS Hph) as Hfree.
+        apply in_app_or in Hin. destruct (hot h); cbn [negb gD] in *; rewrite Hfree in Hin; destruct Hin as [Hin|Hin]; auto; destruct Hin.
   - (* wFlip *)
-    admit.
+    inversion Hs; subst h' nxt; clear Hs. destruct Hrest as [-> ->].
+    cbn [pcinv] in Hpc. destruct Hpc as ((-> & Hg & Hgi) & Hph).
+    exists (set_ph g (PhCool (tickets h))).
+    unfold Inv3. cbn [hot mtx]. split; [|split].
+    + eapply InvT_hold; eauto; try reflexivity.
+      cbn [pcinv set_ph gown ginv gph]. rewrite negb_involutive. auto.
+    + destruct (T_same T i t (mkThread HM (t_todo t) (Some (HWrite, wCool (tickets h) (hot h), inv)) (t_idx t)) Ht) as (HA & HB & HS2);
+        try (intros; unfold tpc; rewrite Hc; reflexivity).
+      eapply InvS_T; eauto.
+      prepS HS Hph h. specialize (FR eq_refl). specialize (CD eq_refl).
+      destruct hb; simSall; constructor; simS; rewrite ?FR in *; triv; try (bk BH; fail); try (bk BC; fail);
+        rewrite ?app_nil_r in *; cbn [vals map app zlen length] in *; triv;
+        try (intros count Ecnt; inversion Ecnt; subst; lia).
+    + destruct HH as [TM TOT WR WOK MONO RT].
+      assert (Eb : base (set_ph g (PhCool (tickets h))) (negb (hot h)) = base g (hot h)).
+      { unfold base. cbn [set_ph gph flipped]. rewrite Hph, negb_involutive. reflexivity. }
+      constructor; rewrite ?Eb; cbn [set_ph gD0 gD1 gW gown ginv]; auto.
+      intros k Hk. destruct (TM k Hk). split; [lia|assumption].
   - (* wCool *)
-    admit.
+    cbn [pcinv] in Hpc. destruct Hpc as ((-> & Hg & Hgi) & Hph & ->).
+    destruct (Z.eqb_spec (s_cnt (hget h (negb (hot h)))) count) as [Ecnt|Ecnt];
+      inversion Hs; subst h' nxt; clear Hs; destruct Hrest as [-> ->].
+    + pose proof (i_cool _ _ _ HS _ Hph) as CL0. pose proof (i_cntc _ _ _ HS) as CC0. rewrite Hph in CC0. cbn [pzc] in CC0.
+      assert (HA0 : TA (negb (hot h)) T = 0) by lia.
+      exists (set_ph g PhM0). hold_step Hph.
+      * cbn [pcinv]. rewrite gD_set_ph. cbn [set_ph gown ginv gph]. psplit; auto. lia.
+      * prepS HS Hph h. destruct hb; simSall; constructor; simS; triv.
+    + hold_same g. cbn [pcinv]. tauto.
   - (* wSpin *)
     inversion Hs; subst; clear Hs. destruct Hrest as [-> ->]. hold_same g.
   - (* wReadSum *)
-    admit.
+    cbn [pcinv] in Hpc. destruct Hpc as ((-> & Hg & Hgi) & Hph & -> & ->).
+    pose proof (i_sumc _ _ _ HS) as SC. rewrite Hph in SC. cbn [pzs PhM0] in SC.
+    destruct (cooled_facts _ _ _ HS) as (_ & _ & E); [rewrite Hph; reflexivity|].
+    rewrite E, app_nil_r in SC.
+    pose proof (i_bnds _ _ _ HS) as Hb.
+    destruct (h_bnds h) as [|b0 br] eqn:Eb; inversion Hs; subst h' nxt; clear Hs; destruct Hrest as [-> ->]; hold_same g;
+      cbn [pcinv]; psplit; auto.
+    + unfold out_ok. cbn [ho_count ho_sum ho_cum]. rewrite <- Hb. cbn [length seq map]. auto.
+    + rewrite <- Hb. cbn [length]. lia.
+    + symmetry. apply cntlt_0.
   - (* wReadBk *)
-    admit.
+    cbn [pcinv] in Hpc. destruct Hpc as ((-> & Hg & Hgi) & Hph & -> & -> & Hsum & Hi & -> & ->).
+    assert (Hn : length (h_bnds h) = n) by (rewrite (i_bnds _ _ _ HS); reflexivity).
+    assert (Hacc : cntlt i0 (gD g (negb (hot h))) + nthZ (s_bk (hget h (negb (hot h)))) i0 = cntlt (S i0) (gD g (negb (hot h)))).
+    { rewrite (i_bkc _ _ _ HS _ Hi). rewrite Hph. cbn [pzb PhM0].
+      destruct (cooled_facts _ _ _ HS) as (_ & E & _); [rewrite Hph; reflexivity|]. rewrite E, cntlt_S.
+      cbn [Nat.ltb Nat.leb]. lia. }
+    rewrite Hacc in Hs.
+    assert (Hcum : map (fun j => cntlt (S j) (gD g (negb (hot h)))) (seq 0 i0) ++ [cntlt (S i0) (gD g (negb (hot h)))]
+                   = map (fun j => cntlt (S j) (gD g (negb (hot h)))) (seq 0 (S i0))).
+    { rewrite seq_S, map_app. reflexivity. }
+    rewrite Hcum, Hn in Hs.
+    destruct (Nat.ltb_spec (S i0) n) as [Hlt|Hge]; inversion Hs; subst h' nxt; clear Hs; destruct Hrest as [-> ->]; hold_same g;
+      cbn [pcinv]; psplit; auto.
+    unfold out_ok. cbn [ho_count ho_sum ho_cum]. psplit; auto. replace n with (S i0) by lia. reflexivity.
   - (* mLoadCnt *)
     inversion Hs; subst; clear Hs. destruct Hrest as [-> ->]. hold_same g.
     cbn [pcinv] in *. destruct Hpc as (Hold & Hph & -> & Hout). psplit; try tauto.
@@ -727,38 +1016,82 @@ Proof.
   - (* mAddCnt *)
     inversion Hs; subst; clear Hs. destruct Hrest as [-> ->].
     cbn [pcinv] in Hpc. destruct Hpc as ((-> & Hg & Hgi) & Hph & -> & Hout & ->).
-    exists (set_ph g (PhM true false false false 0 0)).
-    eapply step_hold; eauto; try reflexivity.
-    + destruct h as [bn hb tk s0 s1 mx]; destruct hb; reflexivity.
-    + destruct h as [bn hb tk s0 s1 mx]; destruct hb; reflexivity.
-    + cbn [pcinv]. Show. rewrite gD_set_ph. cbn [set_ph gown ginv gph]. tauto.
-    + destruct HS as [B1 TK CH CC BH BC SH SC ZR FR CD CL].
-      rewrite Hph in *. destruct h as [bn hb tk s0 s1 mx]. cbn [hot] in *.
-      destruct hb; cbn [negb hget hput hot tickets set0 set1 mtx h_bnds s_sum s_cnt s_bk s_zero gD pmc pzc pms pzs pmb pzb PhM0] in *.
-      * constructor; cbn [negb hget hput hot tickets set0 set1 mtx h_bnds s_sum s_cnt s_bk s_zero gD set_ph gD0 gD1 gph pmc pzc pms pzs pmb pzb PhM0].
-        Show.
+    exists (set_ph g (PhM true false false false 0 0)). hold_step Hph.
+    + cbn [pcinv]. rewrite gD_set_ph. cbn [set_ph gown ginv gph]. tauto.
+    + prepS HS Hph h. destruct hb; simSall; constructor; simS; triv.
   - (* mStoreCnt *)
-    admit.
+    inversion Hs; subst; clear Hs. destruct Hrest as [-> ->].
+    cbn [pcinv] in Hpc. destruct Hpc as ((-> & Hg & Hgi) & Hph & -> & Hout).
+    exists (set_ph g (PhM true true false false 0 0)). hold_step Hph.
+    + cbn [pcinv]. rewrite gD_set_ph. cbn [set_ph gown ginv gph]. tauto.
+    + prepS HS Hph h. destruct hb; simSall; constructor; simS; triv.
   - (* mLoadSum *)
-    admit.
+    inversion Hs; subst; clear Hs. destruct Hrest as [-> ->]. hold_same g.
+    cbn [pcinv] in *. destruct Hpc as (Hold & Hph & -> & Hout). psplit; try tauto.
+    pose proof (i_sumc _ _ _ HS) as SC. rewrite Hph in SC. cbn [pzs] in SC.
+    destruct (cooled_facts _ _ _ HS) as (_ & _ & E); [rewrite Hph; reflexivity|].
+    rewrite E, app_nil_r in SC. exact SC.
   - (* mSumLoad *)
-    admit.
+    inversion Hs; subst; clear Hs. destruct Hrest as [-> ->]. hold_same g.
   - (* mSumCas *)
-    admit.
+    cbn [pcinv] in Hpc. destruct Hpc as ((-> & Hg & Hgi) & Hph & -> & Hout & Hs0).
+    destruct (fbits_eq _ _) eqn:Ecas; inversion Hs; subst; clear Hs; destruct Hrest as [-> ->].
+    + apply fbits_eq_true in Ecas. subst old.
+      exists (set_ph g (PhM true true true false 0 0)). hold_step Hph.
+      * cbn [pcinv]. rewrite gD_set_ph. cbn [set_ph gown ginv gph]. tauto.
+      * prepS HS Hph h. destruct hb; simSall; constructor; simS; triv.
+        all: rewrite app_nil_r in SH; rewrite app_assoc; apply SO_add; assumption.
+    + hold_same g. cbn [pcinv]. tauto.
   - (* mStoreSum *)
-    admit.
+    inversion Hs; subst; clear Hs. destruct Hrest as [-> ->].
+    cbn [pcinv] in Hpc. destruct Hpc as ((-> & Hg & Hgi) & Hph & -> & Hout).
+    exists (set_ph g (PhM true true true true 0 0)).
+    assert (Hn : length (h_bnds h) = n) by (rewrite (i_bnds _ _ _ HS); reflexivity).
+    unfold after_bk. rewrite Hn. destruct (Nat.ltb_spec 0 n) as [Hlt|Hge]; hold_step Hph.
+    + cbn [pcinv]. rewrite gD_set_ph. cbn [set_ph gown ginv gph]. tauto.
+    + prepS HS Hph h. destruct hb; simSall; constructor; simS; triv.
+    + cbn [pcinv]. rewrite gD_set_ph. cbn [set_ph gown ginv gph]. replace n with 0%nat by lia. tauto.
+    + prepS HS Hph h. destruct hb; simSall; constructor; simS; triv.
   - (* mLoadBk *)
-    admit.
+    inversion Hs; subst; clear Hs. destruct Hrest as [-> ->]. hold_same g.
+    cbn [pcinv] in *. destruct Hpc as (Hold & Hph & -> & Hout & Hj). psplit; try tauto.
+    rewrite (i_bkc _ _ _ HS _ Hj). rewrite Hph. cbn [pzb]. rewrite Nat.ltb_irrefl.
+    destruct (cooled_facts _ _ _ HS) as (_ & E & _); [rewrite Hph; reflexivity|]. rewrite E. lia.
   - (* mAddBk *)
-    admit.
+    inversion Hs; subst; clear Hs. destruct Hrest as [-> ->].
+    cbn [pcinv] in Hpc. destruct Hpc as ((-> & Hg & Hgi) & Hph & -> & Hout & Hi & ->).
+    exists (set_ph g (PhM true true true true (S i0) i0)). hold_step Hph.
+    + cbn [pcinv]. rewrite gD_set_ph. cbn [set_ph gown ginv gph]. tauto.
+    + prepS HS Hph h. destruct hb; simSall; constructor; simS; triv; try (intros [|]; simS; rewrite ?upd_nth_length; auto; fail).
+      all: bk BH.
   - (* mStoreBk *)
-    admit.
+    inversion Hs; subst; clear Hs. destruct Hrest as [-> ->].
+    cbn [pcinv] in Hpc. destruct Hpc as ((-> & Hg & Hgi) & Hph & -> & Hout & Hi).
+    exists (set_ph g (PhM true true true true (S i0) (S i0))).
+    assert (Hn : length (h_bnds h) = n) by (rewrite (i_bnds _ _ _ HS); reflexivity).
+    unfold after_bk. rewrite Hn. destruct (Nat.ltb_spec (S i0) n) as [Hlt|Hge]; hold_step Hph.
+    + cbn [pcinv]. rewrite gD_set_ph. cbn [set_ph gown ginv gph]. tauto.
+    + prepSc HS Hph h. destruct hb; simSall; constructor; simS; triv; try (intros [|]; simS; rewrite ?upd_nth_length; auto; fail).
+      all: bk BC.
+    + cbn [pcinv]. rewrite gD_set_ph. cbn [set_ph gown ginv gph]. replace (S i0) with n by lia. tauto.
+    + prepSc HS Hph h. destruct hb; simSall; constructor; simS; triv; try (intros [|]; simS; rewrite ?upd_nth_length; auto; fail).
+      all: bk BC.
   - (* mLoadZero *)
-    admit.
+    inversion Hs; subst; clear Hs. destruct Hrest as [-> ->]. hold_same g.
+    cbn [pcinv] in *. destruct Hpc as (Hold & Hph & -> & Hout). psplit; try tauto.
+    apply (i_zero _ _ _ HS).
   - (* mAddZero *)
-    admit.
+    inversion Hs; subst; clear Hs. destruct Hrest as [-> ->].
+    cbn [pcinv] in Hpc. destruct Hpc as ((-> & Hg & Hgi) & Hph & -> & Hout & ->).
+    exists g. hold_step Hph.
+    + cbn [pcinv]. tauto.
+    + prepS HS Hph h. destruct hb; simSall; constructor; simS; rewrite ?Hph; simS; triv.
   - (* mStoreZero *)
-    admit.
+    inversion Hs; subst; clear Hs. destruct Hrest as [-> ->].
+    cbn [pcinv] in Hpc. destruct Hpc as ((-> & Hg & Hgi) & Hph & -> & Hout).
+    exists g. hold_step Hph.
+    + cbn [pcinv]. tauto.
+    + prepS HS Hph h. destruct hb; simSall; constructor; simS; rewrite ?Hph; simS; triv.
   - (* wUnlock *)
     admit.
 Admitted.
